@@ -142,14 +142,14 @@ theorem evseObj_refs (sh : Show K) (cfg : Cfg K) (s : State K) (i : Nat) {j : Na
 theorem evObj_refs (sh : Show K) (cfg : Cfg K) (s : State K) (k : Nat) {j : Nat} (h : j ∈ (evObj sh cfg s k).refs) :
     j = (layout cfg s).battId k := by
   obtain ⟨a, ha, hj⟩ := (mem_refs_iff _ _).1 h
-  simp only [evObj, List.mem_cons, List.not_mem_nil, or_false] at ha
+  simp only [evObj, evObjOf, List.mem_cons, List.not_mem_nil, or_false] at ha
   rcases ha with rfl | rfl | rfl | rfl | rfl | rfl | rfl | rfl | rfl <;> first | (simp at hj; done) | skip
   simpa using hj
 
 theorem battObj_refs (sh : Show K) (cfg : Cfg K) (s : State K) (k : Nat) {j : Nat} (h : j ∈ (battObj sh cfg s k).refs) :
     False := by
   obtain ⟨a, ha, hj⟩ := (mem_refs_iff _ _).1 h
-  unfold battObj at ha
+  unfold battObj battObjOf at ha
   simp only [] at ha
   split at ha <;> simp only [List.cons_append, List.nil_append, List.mem_cons, List.not_mem_nil, or_false] at ha <;>
     rcases ha with rfl | rfl | rfl | rfl | rfl | rfl | rfl | rfl <;> simp at hj
